@@ -1,10 +1,12 @@
 #!/bin/bash
-# dev aid: sweep.sh <PROP> <runs-per-seed> [worker flags...]  — 16 seeds in parallel on /var/tmp/ks1, summary by class
+# dev aid: sweep.sh <PROP> <runs-per-seed> [worker flags...]  — 16 seeds in parallel on /var/tmp/ks1 (env KS), summary by class
+# env: SEED0 first seed, DETAIL chars of detail, KS instrumented dir, SW output dir prefix
 . /verif/env.sh
 P=$1; N=$2; shift 2
-rm -rf /var/tmp/f; mkdir -p /var/tmp/f /var/tmp/sw; rm -f /var/tmp/sw/*.out
-for s in $(seq ${SEED0:-1} $(( ${SEED0:-1} + 15 ))); do
-  /var/tmp/ks1/worker.bin run -prop $P -seed $s -n $N -maxfail 1000 -outdir /var/tmp/f "$@" > /var/tmp/sw/$s.out 2>&1 &
+KS=${KS:-/var/tmp/ks1}; SW=${SW:-/var/tmp}
+rm -rf $SW/f; mkdir -p $SW/f $SW/sw; rm -f $SW/sw/*.out
+for s in $(seq ${SEED0:-1} $(( ${SEED0:-1} + ${NSEEDS:-16} - 1 ))); do
+  $KS/worker.bin run -prop $P -seed $s -n $N -maxfail 1000 -outdir $SW/f "$@" > $SW/sw/$s.out 2>&1 &
 done
 wait
-cat /var/tmp/sw/*.out | python3 /verif/tools/survey3.py ${DETAIL:-1600}
+cat $SW/sw/*.out | python3 /verif/tools/survey3.py ${DETAIL:-1600}
